@@ -153,5 +153,18 @@ InfrasRR002 == {[id |-> "rr002", T |-> 5,
 ProfRR002 == {PA, PF}
 OptsRR002 == OptsRR({"fcfs"}, {FALSE}, {2000})
 
+\* (a) sessions that can no longer finish in time: NEGATIVE laxities, all different (-4.3, -9.5 periods at 32 A) - the order
+\*     among hopeless sessions is still the order of their laxities;
+\* (b) two constraints with the same coefficients and different limits (a 60 A cable and a 40.037 A breaker on one
+\*     feeder), the looser one registered first: every row binds on its own
+PN1 == P(1, 13, 12, 20037000, 0, -1)
+PN2 == P(4, 15, 13, 40050000, 0, -1)
+Dup3 == [id |-> "dup3", T |-> 5,
+         st |-> <<Fin(L8, 240, 0), Cont(32 * A, 240, 0), Fin(L6, 240, 0)>>,
+         con |-> <<Con(<<1, 1, 1>>, 60 * A), Con(<<1, 1, 1>>, 4003700), Con(<<1, 0, 1>>, 50 * A)>>]
+InfrasNeg == {Single3, Dup3}
+ProfNeg == {PN1, PN2, PB, PA}
+OptsNeg == {O("greedy", so, un, FALSE, 0) : so \in {"llf", "fcfs"}, un \in BOOLEAN} \cup OptsRR({"llf"}, {FALSE}, {250000})
+
 ASSUME \A n \in Infras : \A k \in 1..Len(n.con) : n.con[k].lim <= 100 * U /\ Len(n.con[k].coef) = Len(n.st)
 =============================================================================
